@@ -161,8 +161,8 @@ Print Assumptions C11_query_equals_constraints.
 
 (* slicing affects the solver, never `conditions` *)
 Theorem C11_slicing_keeps_conditions :
-  forall (cond : Type) (p q parent : path cond) vs,
-    (slice cond p vs = Some q -> conditions q = conditions p) /\
+  forall (cond : Type) (vars : cond -> list Z) (p q parent : path cond) vs,
+    (slice cond vars p vs = Some q -> conditions q = conditions p) /\
     conditions (extend_path cond p parent) = conditions parent.
 Proof. exact slicing_keeps_conditions. Qed.
 Print Assumptions C11_slicing_keeps_conditions.
